@@ -63,6 +63,11 @@ pub fn plant_entry(root: &Path, e: &Entry) {
                 return;
             }
             let _ = std::fs::write(&p, subst(&data.0, root));
+            if data.0.starts_with(b"#!") {
+                // scripts are planted executable
+                use std::os::unix::fs::PermissionsExt;
+                let _ = std::fs::set_permissions(&p, std::fs::Permissions::from_mode(0o755));
+            }
         }
         Entry::Symlink { path, target } => {
             let p = root.join(path);
